@@ -720,6 +720,7 @@ func (p *placeStore) Watch(ctx context.Context, ch chan<- configapi.TransactionE
 }
 
 type world struct {
+	live   []string // targets of the current case (their connections are closed when the case is over)
 	e      *env.Env
 	plugin *fakes.PluginClient
 	rec    *recorder
@@ -756,6 +757,7 @@ func (w *world) newTarget(withDevice bool) string {
 		d := fakes.NewDevice(t)
 		w.devs[t] = d
 		w.e.Conns.AddConn("conn-"+t, t, d)
+		w.live = append(w.live, t)
 	}
 	return t
 }
@@ -819,7 +821,7 @@ func (w *world) run(id string, c e2eCase) {
 			committed = 1
 		}
 		// the recorder lags behind the store: wait until it has seen the final version
-		dl := time.Now().Add(time.Second)
+		dl := time.Now().Add(3 * time.Second)
 		for time.Now().Before(dl) {
 			h := w.rec.get(created.ID)
 			if len(h) > 0 && h[len(h)-1].version >= final.Version {
@@ -877,6 +879,12 @@ func (w *world) run(id string, c e2eCase) {
 			}
 		}
 	}
+	// the case is over: close its device connections (keeps the process small over thousands of cases)
+	for _, t := range w.live {
+		w.e.Conns.RemoveConn("conn-" + t)
+		delete(w.devs, t)
+	}
+	w.live = nil
 	fmt.Fprintf(out, "h.e2e\t%s\t%s\t%d\t%s\t%s\t%s\t%s\t%s:%d\t%d\t%s\t%s\t%s\t%s\n", id, c.kind, sy, c.label, hstr, dstr, oc, fin, committed, lead,
 		rowsStr(c.want), stored, rs, idok)
 }
